@@ -38,6 +38,12 @@ def lexer_two_copy(chk, tier):
         return z3.Or(*[z3.And(lm.tok_at(p), lm.tokEnd[p] > i, pred(p)) for p in range(i + 1)])
     for mode in ('whitespace', 'case'):
         t0 = time.time()
+        if mode == 'case' and tier == 'quick':
+            # the case query is the expensive one: 6 characters in the quick tier
+            N = 6
+            l1 = lexsmt.LexModel(tb, N, 'a')
+            l2 = lexsmt.LexModel(tb, N, 'b')
+            d1 = splitchar.SliceDomain(l1, tb, vars(SS))
         s = z3.Solver()
         s.set('timeout', 900000)
         s.add(*l1.cons, *l2.cons, l1.t.L == l2.t.L, l1.no_multi_upper(0, N), l2.no_multi_upper(0, N))
@@ -142,10 +148,11 @@ def run(tier):
                 chk.report(k['signature'], w, {})
                 known.append(k['signature'])
     ksub = {'KNOWN = set()': 'KNOWN = ' + repr(set(known))} if known else {}
-    jobs = [chrun.Job(M, 'respell', 300 if q else 900, subst=dict({'PART = -1': f'PART = {t}'}, **ksub), label=f'respell[template {t}]', twin=(t == 0),
-                      explain=lambda mod_, a: dict(why=mod_.respell_why(*a[0]))) for t in range(14)]
+    jobs = [chrun.Job(os.path.join(ROOT, 'vf/ch/iskw.py'), 'iskw', 120 if q else 300)]
+    jobs += [chrun.Job(M, 'respell', 300 if q else 900, subst=dict({'PART = -1': f'PART = {t}'}, **ksub), label=f'respell[template {t}]', twin=(t == 0),
+                       explain=lambda mod_, a: dict(why=mod_.respell_why(*a[0]))) for t in range(14)]
     res = chrun.run_jobs(jobs)
-    chrun.settle(chk, res, classify=lambda r: ((r.get('explain') or {}).get('why') or 'respell').split(': ')[0],
+    chrun.settle(chk, res, classify=lambda r: 'is_keyword:depends-on-spelling-not-only-upper' if r['func'] == 'iskw' else ((r.get('explain') or {}).get('why') or 'respell').split(': ')[0],
                  make_replay=lambda r: dict(observed=(r.get('explain') or {}).get('why')))
     chk.bounds = dict(lexer='two symbolic texts of equal length', splitter='alphabet Theta incl. every discovered multi-word keyword in 3 casings and 4 whitespace spellings',
                       trees='14 statement templates x 6 whitespace fillers x 4 casings (lower, upper, capitalised, mixed fillers): statement count, get_type and tree shape/node classes/leaf types identical',
